@@ -173,12 +173,6 @@ theorem parse_cons (b : UInt8) (t : Bytes) :
   simp only [List.cons_ne_nil, if_false]
   split <;> rename_i h <;> simp [h]
 
-/-- the pair (opcode, data-or-empty) of a raw operation, as GetScriptOp reports it -/
-def Model.Script.RawOp.pair (o : RawOp) : Nat × Bytes := (o.opcode, o.data.getD [])
-
-/-- raw operations are well-formed: the data is present exactly for push opcodes -/
-def Model.Script.RawOp.wf (o : RawOp) : Prop := o.opcode < 256 ∧ (o.data.isSome ↔ o.opcode ≤ 0x4e)
-
 theorem rawIterFrom_parse (n : Nat) : ∀ (idx : Nat) (s : Bytes), s.length ≤ n →
     (rawIterFrom idx s).1.map RawOp.pair = (parse s).1 ∧
     ((rawIterFrom idx s).2.isNone = (parse s).2) ∧
@@ -217,9 +211,6 @@ theorem rawIter_parse (s : Bytes) :
     (rawIter s).1.map RawOp.pair = (parse s).1 ∧ ((rawIter s).2.isNone = (parse s).2) ∧
       (∀ o ∈ (rawIter s).1, o.wf) :=
   rawIterFrom_parse s.length 0 s (Nat.le_refl _)
-
-/-- the bytes a raw operation occupies: opcode byte, length field of its push form, payload -/
-def Model.Script.RawOp.enc (o : RawOp) : Bytes := opEnc o.opcode (o.data.getD [])
 
 theorem rawIterFrom_partition (n : Nat) : ∀ (idx : Nat) (s : Bytes), s.length ≤ n →
     ∃ rest, s = ((rawIterFrom idx s).1.map RawOp.enc).flatten ++ rest ∧
